@@ -6,7 +6,7 @@
    ferret_sub_limbs is modelled in its repaired form (fixes/C16-sub-borrow.patch); C16_sub_unpatched_refuted
    is the defect of the code as found. *)
 From Coq Require Import ZArith List Bool.
-From FV Require Import Models.Bigint Proofs.BigintP Proofs.BigintMulP Proofs.BigintDecP Proofs.BigintPowP.
+From FV Require Import Models.Bigint Proofs.BigintP Proofs.BigintMulP Proofs.BigintDecP Proofs.BigintPowP Proofs.BigintTextP.
 Import ListNotations.
 Open Scope Z_scope.
 
@@ -153,6 +153,32 @@ Theorem C16_to_decimal : forall a, limbs_ok a -> (length a <= 4)%nat ->
 Proof. exact to_decimal_correct. Qed.
 Print Assumptions C16_to_decimal.
 
+(* signed number -> text: the digits of the value, or '-' and the digits of the magnitude (also for -2^(N-1)) *)
+Theorem C16_to_decimal_signed : forall a, limbs_ok a -> a <> [] -> (length a <= 4)%nat ->
+  exists s, s_to_string a = Some s /\
+    (0 <= svalue a -> all_digits 10 s /\ num 10 s 0 = svalue a) /\
+    (svalue a < 0 -> exists d, s = 45 :: d /\ all_digits 10 d /\ num 10 d 0 = - svalue a).
+Proof. exact s_to_string_correct. Qed.
+Print Assumptions C16_to_decimal_signed.
+
+(* text -> number for decimal digit strings ('_' separators allowed, any length, so overflow wraps): the whole of
+   ferret_parse_uint + the *_from_string wrappers, with and without a leading '-' *)
+Theorem C16_from_decimal : forall n s, n <> O -> all_digits 10 s -> has_digit s ->
+  value (u_from_string n s) = (num 10 s 0) mod modulus n /\
+  svalue (s_from_string n s) = wrapS (modulus n) (num 10 s 0) /\
+  svalue (s_from_string n (45 :: s)) = wrapS (modulus n) (- num 10 s 0).
+Proof.
+  intros n s Hn H D. split; [apply u_from_string_correct; auto|].
+  split; [apply s_from_string_plain_correct; auto | apply s_from_string_minus_correct; auto].
+Qed.
+Print Assumptions C16_from_decimal.
+
+(* round trip: printing an unsigned value and reading the text back yields the same limbs' value *)
+Theorem C16_decimal_roundtrip : forall a, limbs_ok a -> a <> [] -> (length a <= 4)%nat ->
+  exists s, u_to_string a = Some s /\ value (u_from_string (length a) s) = value a.
+Proof. exact decimal_roundtrip. Qed.
+Print Assumptions C16_decimal_roundtrip.
+
 (* text -> number, the part proved: the digit loop of ferret_parse_uint accumulates the denoted number modulo 2^N
    (any base, '_' skipped); sign, prefix and the number -> text direction are covered by correspondence only *)
 Theorem C16_parse_digits_partial : forall s base out any, all_digits base s ->
@@ -165,7 +191,8 @@ Print Assumptions C16_parse_digits_partial.
 (* what is proved of C16_full: + - * (both readings), negation, all comparisons, not, 64-bit conversions.
    C16_pow, C16_to_decimal and C16_parse_digits_partial add exponentiation, number -> text and the digit loop of
    text -> number.  Not proved (covered by the correspondence and the spec-side oracle only): div/mod, and/or/xor,
-   shifts, the sign of signed number -> text, sign/prefix/whitespace handling of text -> number. *)
+   shifts, and text -> number beyond decimal digit strings with an optional '-' (prefixes 0x/0o/0b, '+', leading
+   white space, stopping at the first bad character). *)
 Theorem C16_proved_partial : forall n a b, operands n a b ->
   let m := modulus n in
      value (add_limbs a b) = (value a + value b) mod m
